@@ -748,7 +748,7 @@ fn h3_rule(_a: &SocketAddr, t: i32) -> crate::engine::sys::ConnectAnswer {
     }
 }
 
-pub const H3_OUTCOMES: [&str; 9] = ["connected", "econnrefused", "enetunreach", "never-completes", "policy-loopback", "without-port", "reserved-check", "get-on-reserved", "reserved-with-port"];
+pub const H3_OUTCOMES: [&str; 11] = ["connected", "econnrefused", "enetunreach", "never-completes", "policy-loopback", "without-port", "reserved-check", "get-on-reserved", "reserved-with-port", "reserved-other-case-check", "reserved-other-case-udp2"];
 
 pub async fn outcome_case(outcome: &str) -> Result<&'static str, Violation> {
     let case = json!({"kind":"quic-outcome","outcome":outcome});
@@ -773,6 +773,9 @@ pub async fn outcome_case(outcome: &str) -> Result<&'static str, Violation> {
         "reserved-check" => cl.request("CONNECT", "_check", None, &auth, false),
         "get-on-reserved" => cl.request("GET", "_udp2", Some("/"), &auth, true),
         "reserved-with-port" => cl.request("CONNECT", "_icmp:7", None, &auth, false),
+        // the reserved names are case-sensitive: these are host names without a port
+        "reserved-other-case-check" => cl.request("CONNECT", "_CHECK", None, &auth, false),
+        "reserved-other-case-udp2" => cl.request("CONNECT", "_UDP2", None, &auth, false),
         _ => cl.request("CONNECT", "93.184.216.34:443", None, &auth, false),
     }
     .map_err(|e| Violation::new("C10:machinery", e, json!({})))?;
@@ -801,6 +804,9 @@ pub async fn outcome_case(outcome: &str) -> Result<&'static str, Violation> {
         // without port / reserved name with a port: exactly one final response, not a success for the former
         if outcome == "without-port" && status == 200 {
             return Err(mk("accepted-must-refuse", "CONNECT without a port answered 200".into()));
+        }
+        if outcome.starts_with("reserved-other-case") && status == 200 {
+            return Err(mk("accepted-must-refuse", "CONNECT to a name that differs from a reserved one by case was served as the reserved one".into()));
         }
         return Ok("one-final-response");
     }
@@ -1548,7 +1554,7 @@ pub fn c10_into(rep: &mut Report) {
     }
     rep.add("evaluations", H3_OUTCOMES.len() as u64);
     rep.sub.push(json!({"sub":"http3-outcomes","cases":H3_OUTCOMES.len(),"classes":classes,
-        "what":"CONNECT over HTTP/3 x outcome of the outbound attempt {connected, ECONNREFUSED, ENETUNREACH, never completes (0.7 s establishment timeout), loopback forbidden, no port, _check, GET on _udp2, _icmp:7}: exactly one final response with the documented status / X-Warning"}));
+        "what":"CONNECT over HTTP/3 x outcome of the outbound attempt {connected, ECONNREFUSED, ENETUNREACH, never completes (0.7 s establishment timeout), loopback forbidden, no port, _check, GET on _udp2, _icmp:7, _CHECK, _UDP2}: exactly one final response with the documented status / X-Warning"}));
 }
 
 pub fn c16_into(rep: &mut Report) {
